@@ -329,6 +329,9 @@ func (F *Facts) effects() {
 		for _, fn := range P.Funcs {
 			for _, ci := range CallsOf(fn) {
 				for _, c := range F.callees[ci] {
+					if F.debugOnlyFunc(c) != "" {
+						continue // diagnostic dump under Mast.debug / on the way to an assertion panic: not part of the operation
+					}
 					if F.MayLoad[c] && !F.MayLoad[fn] {
 						F.MayLoad[fn] = true
 						changed = true
